@@ -28,3 +28,9 @@ pub mod udp;
 
 pub(crate) mod transport;
 pub(crate) mod util;
+
+/// verification hooks (only compiled with `--cfg stepfunc_dnp3_verif`)
+#[cfg(stepfunc_dnp3_verif)]
+#[path = "/verif/hooks/dnp3_hooks.rs"]
+#[allow(missing_docs, unreachable_pub, dead_code, unused)]
+pub mod verif_hooks;
